@@ -207,7 +207,10 @@ def make_filter(c, prefix='flt'):
     n = c.int(prefix + '_n')
     c.assume(n >= 2)
     nu = Quantity(c.array(prefix + '_nu', (n,)), units.BASE['Hz'])
-    return c.obj(FILTER, name=Opaque('str', prefix), _wavelength=Quantity(c.real(prefix + '_cw'), units.BASE['micron']),
+    cw = c.real(prefix + '_cw')
+    # object invariant: `_wavelength` is only ever stored by the validating setter (validate_scalar, 'strictly-positive')
+    c.assume(cw > 0)
+    return c.obj(FILTER, name=Opaque('str', prefix), _wavelength=Quantity(cw, units.BASE['micron']),
                  _nu=nu, _r=c.array(prefix + '_resp', (n,)))
 
 
